@@ -45,6 +45,9 @@ type Explorer struct {
 	AssertQueries    int
 	PathsWithAsserts int
 	Samples []map[string]string
+	Summaries map[string]*ssa.Function
+	ExactRechecks int
+	UnknownSites  map[string]int
 }
 
 type PathCtx struct {
@@ -105,6 +108,11 @@ func (c *PathCtx) Branch(cond *Term) bool {
 	}
 	if rt == "unknown" || rf == "unknown" {
 		c.ex.Unknown++
+		where := "branch"
+		if c.curFrame != nil {
+			where = "branch in " + c.curFrame.fn.Name()
+		}
+		c.ex.noteUnknown(where)
 	}
 	tOK, fOK := rt != "unsat", rf != "unsat"
 	switch {
@@ -229,6 +237,34 @@ func (c *PathCtx) Assert(cond *Term, msg string) {
 	c.sync()
 	s := c.ex.solver
 	r := s.Check(Not(cond))
+	if r == "sat" && s.UFMul && (len(s.pr.muls) > 0 || s.pr.ufDivDecl) {
+		// the counterexample lives in the product abstraction: re-decide with exact multiplication
+		s.Pop()
+		s.UFMul = false
+		s.Reset()
+		for _, t := range c.pc {
+			s.Assert(t)
+		}
+		r = s.Check(Not(cond))
+		c.ex.ExactRechecks++
+		if r != "sat" {
+			s.Pop()
+			s.UFMul = true
+			c.fresh = true
+			if r == "unknown" {
+				c.ex.Unknown++
+				c.ex.noteUnknown("exact recheck of assertion: " + msg)
+			}
+			return
+		}
+		m := s.Model(c.vars)
+		s.Pop()
+		s.UFMul = true
+		c.fresh = true
+		c.ex.Viol = append(c.ex.Viol, Violation{Msg: msg, Model: m, Path: append([]int64{}, c.decisions...), Sched: append([]int64{}, c.sched...)})
+		c.add(cond)
+		return
+	}
 	if r == "sat" {
 		m := s.Model(c.vars)
 		s.Pop()
@@ -246,7 +282,15 @@ func (c *PathCtx) Assert(cond *Term, msg string) {
 	s.Pop()
 	if r == "unknown" {
 		c.ex.Unknown++
+		c.ex.noteUnknown("assertion: " + msg)
 	}
+}
+
+func (ex *Explorer) noteUnknown(where string) {
+	if ex.UnknownSites == nil {
+		ex.UnknownSites = map[string]int{}
+	}
+	ex.UnknownSites[where]++
 }
 
 func (c *PathCtx) NewVar(name string, w int) *Term {
